@@ -89,7 +89,7 @@ def run(cmd, **kw):
 class Ctx:
     """State of one check run."""
 
-    def __init__(self, pid, tier, seed):
+    def __init__(self, pid, tier, seed, keep_replays=False):
         self.pid = pid
         self.tier = tier
         self.seed = seed
@@ -113,7 +113,7 @@ class Ctx:
         self.known = load_known()
         # stale replays of earlier runs of this property would only confuse a reader
         rd = os.path.join(VERIF, "replays")
-        if os.path.isdir(rd):
+        if os.path.isdir(rd) and not keep_replays:
             for fn in os.listdir(rd):
                 if fn.startswith(pid + "-"):
                     os.unlink(os.path.join(rd, fn))
